@@ -489,17 +489,17 @@ class Table:
                 return [ i for i,c in enumerate(col,lo) if c is not None and c > arg ]
 
         if comparison == "match":
-            if isinstance(arg,Number) and col and isinstance(col[0],Number):
-                return [ i for i,c in enumerate(col,lo) if c == arg ]
-            elif isinstance(arg,Number) and isinstance(col[0],str):
-                _re = re.compile(f'(\D|^){arg}(\D|$)')
-                return [ i for i,c in enumerate(col,lo) if c is not None and _re.search(c) ]
-            elif isinstance(arg,str) and isinstance(col[0],str):
-                _re = re.compile(arg)
-                return [ i for i,c in enumerate(col,lo) if c is not None and _re.search(c) ]
-            else:
-                _re = re.compile(str(arg))
-                return [ i for i,c in enumerate(col,lo) if c is not None and _re.search(str(c)) ]
+            #decided cell by cell (not by the type of the first cell) so that empty
+            #columns and columns with None/Missing among their values are handled
+            is_num = isinstance(arg,Number)
+            num_re = re.compile(f'(\\D|^){arg}(\\D|$)') if is_num else None
+            any_re = re.compile(arg if isinstance(arg,str) else str(arg))
+            def match(c):
+                if c is None or c is Missing: return False
+                if isinstance(c,str): return bool((num_re if is_num else any_re).search(c))
+                if is_num and isinstance(c,Number): return c == arg
+                return bool(any_re.search(str(c)))
+            return [ i for i,c in enumerate(col,lo) if match(c) ]
 
 class TransactionDecode:
     def filter(self, transactions:Iterable[str]) -> Iterable[Any]:
